@@ -41,6 +41,18 @@ CHECKS = {
         'counter against a degree-4 bound up to n=14/24 (nesting), 64/256 (flat) and once at depth 100. Exhaustive within these bounds.',
         'Trusted: the token alphabet/contexts reach the parser states that matter (vacuity guard: distinct log-message kinds and outcome classes); work is counted in Python calls, not seconds.',
     ),
+    'C02': (
+        'exploration',
+        'deviation-bounded exhaustive enumeration: abstract sheets from rule menus x all spellings with <=k decision sites off canonical x all parser option settings, against the projection predicted by the abstract sheet',
+        'DESIGN.md 3/C02',
+        'Every single rule form of the menus (14 selectors x 18 declarations, @media incl. nested, @import, @namespace, @page with margin boxes, '
+        '@font-face, @charset, unknown at-rules, comments) and every valid ordered sequence of <=2 (quick) / <=3 (thorough) rules over a 12-rule core is '
+        'rendered in every spelling that deviates from the canonical one at <=1 (quick) / <=2 (thorough, single rules) decision sites (white-space '
+        'variants, comments at grammar gaps, letter case of case-insensitive words, quote style, hex and simple escapes) and parsed under all four '
+        'parseComments x validate settings; the comment-free projection of the DOM through public accessors must equal the projection the abstract '
+        'sheet predicts, comment nodes must be inserted comments. Exhaustive within the deviation bound.',
+        'Trusted: mc/model/cssast.py (site table = where the CSS grammar has S*, which words are case-insensitive) and mc/model/proj.py (what is meaning, what is presentation).',
+    ),
 }
 
 PENDING = {}
